@@ -1,7 +1,7 @@
 (** C03 over the Go source (Generated/Src.v: ValidateHOTP, validateRFC4226, validate as translated from
     hotp.go / validate.go). *)
 From Coq Require Import String.
-From OtpV Require Import Prelude Sha GoSem Tables Decoder Derive Otp Rfc4226 Errors Src SrcLift SrcEqOtp SrcTop C03.
+From OtpV Require Import Prelude Sha GoSem Tables Decoder Derive Otp Rfc4226 Errors Src SrcLift SrcTop SrcEqDecode SrcEqValidate SrcEqHotp C03.
 Open Scope N_scope.
 
 Theorem C03src_iff : forall fuel junk secret key code c d per s a,
